@@ -1186,8 +1186,25 @@ def _inline_type_field(location, name, abbreviation, body):
         ir_data_utils.builder(body.structure).source_location = body.source_location
     ir_data_utils.builder(body).name.CopyFrom(type_name)
     field.source_location = parser_types.merge_source_locations(location, body)
-    subtypes = [body] + list(body.subtype)
+    # The types nested in an inline type are hoisted into the enclosing type,
+    # except for the types of the inline type's own anonymous `bits` fields:
+    # synthetics looks those up among the subtypes of the type that holds the
+    # anonymous field.
+    anonymous_type_names = set()
+    if body.has_field("structure"):
+        for body_field in body.structure.field:
+            if body_field.name.is_anonymous:
+                anonymous_type_names.add(
+                    body_field.type.atomic_type.reference.source_name[-1].text
+                )
+    kept_subtypes = [
+        t for t in body.subtype if t.name.name.text in anonymous_type_names
+    ]
+    subtypes = [body] + [
+        t for t in body.subtype if t.name.name.text not in anonymous_type_names
+    ]
     del body.subtype[:]
+    body.subtype.extend(kept_subtypes)
     return _FieldWithType(field=field_ir, subtypes=subtypes)
 
 
